@@ -207,8 +207,8 @@ Proof.
     + (* tips_stored n1 *)
       intros k tp Hin. unfold n1 in Hin. cbn [tips set_blocks set_tips] in Hin.
       assert (Hcase : tp = mktip (b_hash b) (t_height tp) (b_cd b) \/ In (k, tp) (tips n)).
-      { unfold tips' in Hin. destruct (nget (tips n) (prev_hash b)) as [t0|];
-          apply in_nset in Hin; (destruct Hin as [[= -> ->]|Hin]; [left; reflexivity|right; exact Hin]). }
+      { unfold tips' in Hin. destruct (nget (tips n) (prev_hash b)) as [t0|]; [destruct (t_hash t0 =? prev_hash b)|];
+          apply in_nset in Hin; (destruct Hin as [[= -> ->]|Hin]; [left; reflexivity|right; try apply in_ndel in Hin; exact Hin]). }
       unfold n1, get_block. cbn [blocks set_blocks set_tips]. rewrite nget_nset.
       destruct Hcase as [->|Hin0].
       * cbn [t_hash t_cd]. rewrite N.eqb_refl. exists b. split; reflexivity.
@@ -220,13 +220,12 @@ Proof.
       intros h b0. unfold n1, get_block. cbn [blocks set_blocks set_tips top_cd tips]. rewrite nget_nset.
       destruct (N.eqb_spec h (b_hash b)) as [Eh|Nh].
       * intros [= <-]. right.
-        unfold tips'. destruct (nget (tips n) (prev_hash b)) as [t0|] eqn:Et0.
-        -- exists (prev_hash b), (mktip (b_hash b) (wadd (t_height t0) 1) (b_cd b)). split; [|cbn; lia].
-           clear - Et0. unfold nget, nset in *. induction (tips n) as [|[k0 v0] m IH]; cbn in *; [discriminate|].
-           destruct (prev_hash b =? k0); cbn; [left; reflexivity|right; apply IH; exact Et0].
-        -- exists (b_hash b), (mktip (b_hash b) (b_height b) (b_cd b)). split; [|cbn; lia].
-           clear. unfold nset. induction (tips n) as [|[k0 v0] m IH]; cbn; [left; reflexivity|].
-           destruct (b_hash b =? k0); cbn; [left; reflexivity|right; exact IH].
+        exists (b_hash b), (mktip (b_hash b) (b_height b) (b_cd b)). split; [|cbn; lia].
+        assert (Hset : forall m : list (N * tip), In (b_hash b, mktip (b_hash b) (b_height b) (b_cd b))
+                                  (nset m (b_hash b) (mktip (b_hash b) (b_height b) (b_cd b)))).
+        { clear. intros m. unfold nset. induction m as [|[k0 v0] m IH]; cbn; [left; reflexivity|].
+          destruct (b_hash b =? k0); cbn; [left; reflexivity|right; exact IH]. }
+        unfold tips'. destruct (nget (tips n) (prev_hash b)) as [t0|]; [destruct (t_hash t0 =? prev_hash b)|]; apply Hset.
       * intros Hb0. left. apply (Hmax h b0 Hb0).
 Qed.
 
